@@ -369,11 +369,11 @@ def badSubgroupInvariants (fg : FG.FundGroup) (index : Nat) (expected : List Nat
        | .panic => .panic)
     | .err :: _ => .err
     | .panic :: _ => .panic
-  go (cosetTables fg.genToEdge.length fg.relators index D3.nodeFuel)
+  go (cosetTables fg.genToEdge.length fg.relators index (D3.nodeFuel fg.genToEdge.length index))
 
 /-- `bad_subgroup_count(fg, index, expected)`: `.take(expected + 1).count() != expected` -/
 def badSubgroupCount (fg : FG.FundGroup) (index expected : Nat) : Outcome Bool :=
-  let taken := (cosetTables fg.genToEdge.length fg.relators index D3.nodeFuel).take (expected + 1)
+  let taken := (cosetTables fg.genToEdge.length fg.relators index (D3.nodeFuel fg.genToEdge.length index)).take (expected + 1)
   if taken.any (fun o => match o with | .panic => true | _ => false) then .panic
   else if taken.any (fun o => match o with | .err => true | _ => false) then .err
   else .ok (taken.length != expected)
